@@ -9,6 +9,12 @@
    Kept findings mirrored by the models, each with a `_refuted` witness and the guarded statements:
      NEW  a label that does not stand alone in its bracket            C16_label_in_nested_bracket_refuted, C16_label_slice_across_lines_refuted
      NEW  a label slice with a negative step is not inclusive         C16_label_slice_negative_step_refuted
+     NEW  defined names invisible in nested scopes of the expression  C16_defined_name_in_nested_scope_refuted (CPython's
+          scoping is outside the model: the oracle carries it)
+     NEW  labels that are neither str nor int (float, tuple, date objects) cannot be written between backticks: the model's
+          labels are str / int, so this finding has no theorem; it is carried by the oracle (ASSUMPTIONS)
+     (integer / bool / TEXT arrays: the fill value is cast to the array dtype — C16_int_array_nan_fill_refuted for int64;
+      bool and text arrays by the oracle)
    WHAT THE MODEL DOES NOT SAY (reviewer-E 3): CPython's evaluation of the final text is the Section variable
      pyeval : string -> ns V -> pyres V, a PURE function of the text and the namespace.  "eval() never alters the container or
      the helper table" (C16_eval_pure, C16_eval_has_no_memory, snd (fst r) = vars) is therefore a statement about eval()'s OWN
@@ -768,6 +774,23 @@ Theorem C16_undefined_name_leak_refuted :
     snd (ns_case tbl outer vars None None name) = EVal ("G:" ++ name).
 Proof. exact undefined_name_leak_refuted. Qed.
 
+(* NEW finding (names-invisible-in-nested-scopes): eval() hands the namespace to CPython as LOCALS, and CPython resolves a free
+   name of a nested scope (lambda, generator expression) in the globals only: c.eval('sum(X[i] for i in range(3))') reports the
+   DEFINED variable X as undefined.  CPython's scoping is outside the model (pyeval abstract); the oracle carries the finding.
+   Model-level witness: with pyeval instantiated by that rule, a variable, a helper and a caller local are all reported undefined.
+   (C16_undefined_name_is_reported and name_defined describe the lookup of a name at the TOP level of the expression.) *)
+Theorem C16_defined_name_in_nested_scope_refuted :
+  exists (tbl vars : list string) (locals : list string) (name : string),
+    existsb (String.eqb name) vars = true /\
+    snd (eval_M string (fun _ => false) (fun _ => Raise KeyError) (name_lookup_in_nested_scope (tagged "G" ["np"; "abs"]))
+                [tagged "T" tbl] 0%nat (tagged "V" vars) name (Some (tagged "L" locals)) None) = EAttributeError name /\
+    snd (eval_M string (fun _ => false) (fun _ => Raise KeyError) (name_lookup_in_nested_scope (tagged "G" ["np"; "abs"]))
+                [tagged "T" tbl] 0%nat (tagged "V" vars) "lag" (Some (tagged "L" locals)) None) = EAttributeError "lag" /\
+    snd (eval_M string (fun _ => false) (fun _ => Raise KeyError) (name_lookup_in_nested_scope (tagged "G" ["np"; "abs"]))
+                [tagged "T" tbl] 0%nat (tagged "V" vars) "k" (Some (tagged "L" locals)) None) = EAttributeError "k" /\
+    existsb (String.eqb "lag") tbl = true /\ existsb (String.eqb "k") locals = true.
+Proof. exact defined_name_in_nested_scope_refuted. Qed.
+
 (* ====================================================================== histories: eval() has no memory *)
 (* ANY sequence of eval() calls in one process (builtins=None) — on any containers (any span, any variables), with any caller
    locals, any expressions, failing or not: every call returns what it would return as the FIRST call, and the package-level
@@ -1069,3 +1092,4 @@ Print Assumptions C16_mixed_slice_integer_end_keeps_its_meaning.
 Print Assumptions C16_index_sem_any_extends.
 Print Assumptions C16_label_slice_neg_step_positions.
 Print Assumptions C16_label_slice_negative_step_refuted.
+Print Assumptions C16_defined_name_in_nested_scope_refuted.
